@@ -82,3 +82,10 @@ package ipc
 //@   ensures isnil(result) ==> spawned("Listen$1")
 //@   before call:Chown#1 assert l.chown && arg1 == l.owner && arg2 == l.group
 //@   before call:Chmod#1 assert l.chmod
+
+// ---- thin spots (round 7b) ----
+//@ func (*listener).Accept
+//@   ghost open = l.listener != nil at call:Lock#1
+//@   ensures !open ==> isnil(result0) && result1 == mangos.ErrClosed && !called("Wait")
+//@   ensures open ==> called("Wait")
+//@   before call:Wait#1 assert !held(l.lock)
